@@ -3,6 +3,7 @@ compares every observable with the independent model vf/model/auction.py at ever
 from __future__ import annotations
 
 import copy
+import pickle
 
 from hypothesis import strategies as st
 
@@ -67,6 +68,8 @@ class Walk:
         c = {'dealer': A.SEATS[self.dealer], 'vul': self.vul, 'calls': names(self.calls)}
         if self.reused:
             c['object_reused'] = self.reused
+        if getattr(self, 'is_fork', False):
+            c['on_a_copy_made_by'] = self.forked_by
         if extra:
             c.update(extra)
         return c
@@ -165,27 +168,29 @@ class Walk:
             self.stats.cls('prefixes with rejected calls offered in between')
 
     def fork(self, legal):
-        """A deep copy of an auction in progress is an independent auction (search code forks them): at some prefixes the
-        copy is continued with other calls - a bid in another denomination, a double, a few passes - and thrown away; the
-        original must go on as if nothing had happened (compared at the following prefixes and at the end)."""
+        """A deep copy (or a pickle round trip) of an auction in progress is an auction in its own right (search code forks
+        them, workers receive them): at some prefixes the copy must show the same state, is then continued with other calls -
+        a bid in another denomination, a double, a few passes - under the same checks as any auction, and is thrown away;
+        the original must go on as if nothing had happened (compared at the following prefixes and at the end)."""
         k = h64([self.dealer, self.calls, 'fork'])
-        if k % 5:
+        if k % 5 or getattr(self, 'is_fork', False):
             return
-        cp = copy.deepcopy(self.bp)
-        cand = sorted(legal)
-        calls = list(self.calls)
+        by_pickle = (k >> 5) % 2 == 1
+        case = self.case({'forked_by': 'pickle round trip' if by_pickle else 'copy.deepcopy'})
+        cp = guard('copying an auction in progress raises', case, (lambda: pickle.loads(pickle.dumps(self.bp))) if by_pickle else (lambda: copy.deepcopy(self.bp)))
+        sub = Walk.__new__(Walk)
+        sub.__dict__.update(self.__dict__)
+        sub.bp, sub.calls, sub.stats, sub.is_fork, sub.deep_legal = cp, list(self.calls), None, True, False
+        sub.forked_by = case['forked_by']
+        sub.check_prefix()
         for j in range(1 + (k >> 8) % 4):
-            lg = sorted(A.legal_calls(self.dealer, calls))
-            if A.finished(calls) or not lg:
+            lg = sorted(A.legal_calls(self.dealer, sub.calls))
+            if A.finished(sub.calls) or not lg:
                 break
-            c = lg[(k >> (12 + 6 * j)) % len(lg)]
-            try:
-                cp.take_bid(be.BID[c])
-            except Exception:  # noqa
-                break
-            calls.append(c)
+            sub.take(lg[(k >> (12 + 6 * j)) % len(lg)])
+            sub.check_prefix()
         if self.stats is not None:
-            self.stats.cls('prefixes where a deep copy was continued and discarded')
+            self.stats.cls('prefixes where a copy (deepcopy / pickle) was checked, continued under the same checks and discarded')
 
     def offer_legal_on_copy(self, legal):
         """Legal calls are offered to deep copies (the live object takes only the walk's call)."""
